@@ -480,7 +480,9 @@ def gen_decls(r, n, exotic=False):
         if m < 0.62:
             st, rhs = r.choice(['PubUnder', 'PubPub', 'UnderPub', 'UnderUnder', 'PubBoth']), gen_rhs(r)
             if st == 'PubBoth':
-                if rhs is not None and rhs[0] == 'fd':
+                if rhs is not None and rhs[0] == 'fd' and not exotic:
+                    # (exotic stream: the property may be removed / read-only, the line then stays a real dataclass field
+                    #  and init=False - not modelled - would matter)
                     rhs = ['fd', dict(rhs[1], init_false=True)]
                 declares = rhs is not None and (rhs[0] == 'val' or 'default' in rhs[1] or 'factory' in rhs[1])
                 out.append({'kind': 'prop', 'style': st, 'name': name, 'ty': gen_ty(r, allow_field=exotic or not declares), 'rhs': rhs,
